@@ -132,6 +132,19 @@ Example C15_nonvacuous :
   st_get w 2 (0, 2%Z) = Some (Ref (2, 1%Z)) /\ st_get w 1 (1, 1%Z) = None.
 Proof. vm_compute. repeat split; auto. Qed.
 
+(* a failing batch deletion: the marked entity killed before the repeated
+   (hence stale) handle loses its marker with its life, the entity after it is
+   untouched, and the entity that takes the freed index is marked afresh *)
+Example C15_failing_batch_nonvacuous :
+  let os := [SCreate false; SCreate false; SCreate false; SMark (0, 1%Z); SMark (1, 1%Z); SMark (2, 1%Z);
+             SDeleteMany [(0, 1%Z); (0, 1%Z); (2, 1%Z)]; SCreate false; SMark (0, 2%Z)] in
+  let w := sl_run 3 sl_empty os in
+  run_ok 3 sl_empty os /\
+  snd (sl_step 3 (sl_run 3 sl_empty (firstn 6 os)) (SDeleteMany [(0, 1%Z); (0, 1%Z); (2, 1%Z)])) = OBool false /\
+  w_alive w (0, 1%Z) = false /\ w_alive w (2, 1%Z) = true /\
+  mk_get w (0, 2%Z) = Some 3 /\ mk_get w (1, 1%Z) = Some 1 /\ mk_get w (2, 1%Z) = Some 2 /\ sl_index w = 4.
+Proof. vm_compute. repeat split; auto. Qed.
+
 Print Assumptions C15_history_invariant.
 Print Assumptions C15_invariant_meaning.
 Print Assumptions C15_ids_unique.
